@@ -248,6 +248,7 @@ class Gen(object):
         self.r = runner
         self.profile = profile
         self.dead = set()
+        self.retry = None
 
     def live(self, kinds):
         return [i for i, (k, o, _) in enumerate(self.r.handles) if k in kinds and i not in self.dead]
@@ -279,6 +280,10 @@ class Gen(object):
 
     def next_op(self):
         rnd = self.rnd
+        if self.retry is not None:
+            op, self.retry = self.retry, None
+            if op[1] not in self.dead:
+                return op
         w = dict(create=10, mtag=2, feature=2, lookup=3, lookup_link=1, delete=2, append=5, remove=2,
                  set_link=3, set_attr=4, reopen=0.5, bad=1, set_auto=0.2)
         w.update(self.profile.get("weights", {}))
@@ -413,12 +418,18 @@ class Gen(object):
             pk = self.r.kind(ph)
             c = rnd.choice([x for x in HAS_CONT[pk] if x not in ("CMultiTags", "CFeatures")])
             which = rnd.random()
-            if which < 0.3:
-                return ("create", ph, c, "", rnd.choice(TYPES), self.payload())
-            if which < 0.6:
-                return ("create", ph, c, "sl/ash", rnd.choice(TYPES), self.payload())
-            if which < 0.8 and c != "CProperties":
-                return ("create", ph, c, self.name(), "", self.payload())
+            good = ("create", ph, c, "retry%d" % rnd.randint(0, 999), rnd.choice(TYPES), self.payload())
+            bad = None
+            if which < 0.3 and c != "CBlocks":
+                bad = ("create", ph, c, "", rnd.choice(TYPES), self.payload())
+            elif which < 0.6:
+                bad = ("create", ph, c, "sl/ash", rnd.choice(TYPES), self.payload())
+            elif which < 0.8 and c != "CProperties":
+                bad = ("create", ph, c, good[3], "", self.payload())
+            if bad is not None:
+                if rnd.random() < 0.7:
+                    self.retry = good
+                return bad
             # duplicate of an existing name in that container
             try:
                 items = list(getattr(self.r.obj(ph), CONT_ATTR[c]))
